@@ -1846,19 +1846,22 @@ impl<'a, 'b> AuthorizedAccess<'a, 'b> {
         &self,
         actuation_changes: Vec<ActuationChange>,
     ) -> Result<(), (ActuationError, String)> {
-        #[cfg(feature = "verif-hooks")]
-        crate::verif::yield_point(11, "req Subs R").await;
-        let read_subscription_guard = self.broker.subscriptions.read().await;
-        #[cfg(feature = "verif-hooks")]
-        let _verif_subs = crate::verif::held(11, "acq Subs R", "rel Subs");
-        let actuation_subscriptions = &read_subscription_guard.actuation_subscriptions;
-
+        // Check permissions and values before taking the subscriptions lock: these checks
+        // take the database lock, which must never be requested while holding the
+        // subscriptions lock (all other operations lock the database first).
         for actuation_change in &actuation_changes {
             let vss_id = actuation_change.id;
             self.can_write_actuator_target(&vss_id).await?;
             self.validate_actuator_update(&vss_id, &actuation_change.data_value)
                 .await?;
         }
+
+        #[cfg(feature = "verif-hooks")]
+        crate::verif::yield_point(11, "req Subs R").await;
+        let read_subscription_guard = self.broker.subscriptions.read().await;
+        #[cfg(feature = "verif-hooks")]
+        let _verif_subs = crate::verif::held(11, "acq Subs R", "rel Subs");
+        let actuation_subscriptions = &read_subscription_guard.actuation_subscriptions;
 
         let actuation_changes_per_vss_id = &self
             .map_actuation_changes_by_vss_id(actuation_changes)
